@@ -98,6 +98,7 @@ class Explorer:
         else:
             d = frozenset(allowed)
             self.solver.add(self.IN(v, d))
+            self.model = None   # a cached model completes unknown variables with 0, which may lie outside the domain
         self.dom[v.get_id()] = d
         self.vars[name] = (v, "fd", size)
         return v
@@ -110,6 +111,8 @@ class Explorer:
             self.solver.add(v >= lo)
         if hi is not None:
             self.solver.add(v <= hi)
+        if lo is not None or hi is not None:
+            self.model = None
         self.vars[name] = (v, "int", None)
         return v
 
